@@ -144,3 +144,103 @@ func init() {
 		checkAsmArms(c, "C14.asmarms", 12)
 	}
 }
+
+// CARRYCHAIN: the carry that an ADCQ / SBBQ consumes was produced by an arithmetic instruction.
+//
+// In a multi-limb addition `ADDQ a, r0; ADCQ $0, r1; ...` every ADCQ takes the carry flag of the instruction
+// before it. A flag-clobbering instruction slipped in between - the classic is replacing `MOVQ $0, DX` by the
+// shorter `XORQ DX, DX` - makes the next ADCQ add a carry that is always zero: wrong only for operands whose
+// limb addition does carry. For every ADCQ / ADCL / SBBQ / SBBL in the amd64 assembly (macros included) the
+// rule finds the closest preceding instruction, in straight-line order inside the same TEXT or macro, that
+// writes the carry flag; it must not be a logic instruction (XOR, AND, OR, TEST), whose carry is constant 0.
+// (The ADX instructions ADCXQ / ADOXQ start their chains from a flag cleared on purpose and are not subject.)
+var (
+	asmCarryConsumer = regexp.MustCompile(`^(ADCQ|ADCL|SBBQ|SBBL)\b`)
+	asmCarryLogic    = regexp.MustCompile(`^(XORQ|XORL|ANDQ|ANDL|ORQ|ORL|TESTQ|TESTL|ANDNQ)\b`)
+	asmCarryArith    = regexp.MustCompile(`^(ADDQ|ADDL|ADCQ|ADCL|SUBQ|SUBL|SBBQ|SBBL|NEGQ|NEGL|CMPQ|CMPL|SHLQ|SHRQ|SARQ|SHLL|SHRL|MULQ|MULL|IMULQ|IMUL3Q|BTQ|BTL|ADCXQ|RCLQ|RCRQ|SHLDQ|SHRDQ)\b`)
+)
+
+func checkAsmCarryChains(c *Ctx, rule string, floor int) {
+	var files []string
+	_ = filepath.Walk(c.Repo, func(path string, info os.FileInfo, err error) error {
+		if err != nil {
+			return nil
+		}
+		if info.IsDir() {
+			if n := info.Name(); n == ".git" || n == "testdata" {
+				return filepath.SkipDir
+			}
+			return nil
+		}
+		if strings.HasSuffix(path, "_amd64.s") || strings.HasSuffix(path, "_amd64.h") {
+			files = append(files, path)
+		}
+		return nil
+	})
+	sort.Strings(files)
+	n, nbad := 0, 0
+	for _, path := range files {
+		ins, lines, err := asmInstrs(path)
+		if err != nil {
+			c.undecided(rule, path, err.Error(), "")
+			continue
+		}
+		rel, _ := filepath.Rel(c.Repo, path)
+		for i, in := range ins {
+			if !asmCarryConsumer.MatchString(in) {
+				continue
+			}
+			n++
+			// closest preceding flag writer in the same TEXT / macro, not across a label
+			for j := i - 1; j >= 0; j-- {
+				p := ins[j]
+				if strings.HasPrefix(p, "TEXT ") || p == "#define" || asmLabel.MatchString(p) {
+					break
+				}
+				if asmCarryArith.MatchString(p) {
+					break
+				}
+				if asmCarryLogic.MatchString(p) {
+					nbad++
+					c.bad(rule, fmt.Sprintf("%s: the carry consumed by `%s` (line %d) comes from an arithmetic instruction", rel, in, lines[i]), fmt.Sprintf("the closest flag-writing instruction before it is `%s` (line %d), which clears the carry: the carry of the addition above it is lost whenever there is one", p, lines[j]), fmt.Sprintf("%s:%d", rel, lines[i]))
+					break
+				}
+				// an invocation of another macro or an unknown mnemonic: not decided, stop looking
+				op := strings.Fields(p)[0]
+				if strings.Contains(op, "(") || !isUpperASCII(op) {
+					break
+				}
+			}
+		}
+	}
+	c.count("asm_carry_consumers", n)
+	if n < floor {
+		c.undecided(rule, "carry-consuming instructions in amd64 assembly", fmt.Sprintf("only %d found (floor %d)", n, floor), "")
+	} else if nbad == 0 {
+		c.ok(rule, "no ADCQ / SBBQ consumes a carry that a logic instruction has just cleared", fmt.Sprintf("%d carry-consuming instructions in %d files", n, len(files)), "")
+	}
+}
+
+func isUpperASCII(s string) bool {
+	for _, r := range s {
+		if !(r >= 'A' && r <= 'Z' || r >= '0' && r <= '9') {
+			return false
+		}
+	}
+	return s != ""
+}
+
+func init() {
+	for _, prop := range []string{"C14", "C06", "C12"} {
+		prop := prop
+		prev := registry[prop]
+		registry[prop] = func(c *Ctx) {
+			prev(c)
+			if c.override != "" && c.override != "amd64" {
+				return
+			}
+			c.Clauses = append(c.Clauses, prop+".carrychain: in the amd64 assembly no ADCQ / SBBQ consumes a carry flag that a logic instruction (XOR, AND, OR, TEST) has cleared since the last arithmetic instruction")
+			checkAsmCarryChains(c, prop+".carrychain", 500)
+		}
+	}
+}
